@@ -85,7 +85,7 @@ func main() {
 func runChainSuite(seed uint64, n, steps int, mode string, out *Out, stats *Stats) {
 	for i := 0; i < n; i++ {
 		id := fmt.Sprintf("ch%d_%d", seed, i)
-		w := NewWorld(id, seed*1000003+uint64(i), mode, stats)
+		w := NewWorld(id, seed*1000003+uint64(i), mode, stats, out)
 		w.run(steps)
 		out.Case(w.rec.Emit())
 		for k, d := range w.rec.Digests {
